@@ -32,12 +32,12 @@ B = lambda op, l, r: ["bin", op, l, r]
 
 
 @hyp.composite
-def cases(d):
+def cases(d, force=None):
     wa = d.choice([2, 3, 4])
     wb = d.choice([3, 4, 5])
     fs = [{"name": "a", "kind": "bit", "w": wa, "signed": False, "rand": True, "init": 0},
           {"name": "b", "kind": "bit", "w": wb, "signed": False, "rand": True, "init": 0}]
-    has_c = d.chance(50)
+    has_c = d.chance(50) or force == "const_middle"
     if has_c:
         fs.append({"name": "c", "kind": "bit", "w": d.choice([2, 3]), "signed": False, "rand": True, "init": 0})
     amax = (1 << wa) - 1
@@ -70,7 +70,9 @@ def cases(d):
         stmts.append(["expr", B("<=", F("c"), F("b"))] if d.chance(60) else ["unique", [F("a"), F("c")]])
     # ordering directive
     o = d.randint(0, 99)
-    two_before = has_c and d.chance(40)
+    two_before = has_c and d.chance(40) and force != "const_middle"
+    if force == "const_middle":
+        o = 50
     if two_before:
         # a and b are independent (each only bounded), c is coupled to them: both must be chosen before c
         stmts = [st for st in stmts if "b" not in sem.fields_of_stmt(st) or "a" not in sem.fields_of_stmt(st)]
@@ -90,6 +92,18 @@ def cases(d):
         order = [["order", ["a"], ["b"]], ["order", ["b"], ["c"]]]
         if d.chance(40):
             order.reverse()
+        if d.chance(35) or force == "const_middle":
+            # the middle variable of the chain is not random in the call (a constant with a generated value): a is still
+            # ordered before c through it
+            fs[1]["rand"] = False
+            fs[1]["init"] = d.randint(0, min(amax, (1 << wb) - 1))
+            # ... and the last variable's companion count depends on a directly
+            stmts.append(["expr", B("<=", F("c"), F("a"))])
+            if force == "const_middle":
+                # keep feasible(a) equal to its inferred interval (so that uniformity can be asserted): the constant is tied
+                # to the others only by an always-true statement
+                stmts = [st for st in stmts if "b" not in sem.fields_of_stmt(st)]
+                stmts.append(["expr", B("|", B("<=", F("c"), F("b")), B("<=", F("b"), L((1 << wb) - 1)))])
     else:
         order = [["order", ["a"], ["b"]], ["order", ["a"], ["c"]]]
     pos = d.randint(0, len(stmts))
@@ -151,7 +165,9 @@ def run_case(case, n_draws=3000):
     if out:
         return out[:1], info
     env0 = {f["name"]: f["init"] for f in fields}
-    r = flat.enumerate_solutions(types, fields, env0, stmts)
+    rf = [f for f in fields if f["rand"]]          # (a chain's middle variable may be a constant)
+    names = [f["name"] for f in rf]
+    r = flat.enumerate_solutions(types, rf, env0, stmts)
     allv, sols = r
     if not sols:
         return [], info
@@ -203,6 +219,8 @@ def run_case(case, n_draws=3000):
             orders = [st for st in stmts if st[0] == "order"]
             befores = set(x for st in orders for x in st[1]) - set(x for st in orders for x in st[2])
             for vname in sorted(befores - {"a"}):
+                if vname not in names:
+                    continue
                 iv = names.index(vname)
                 fv = sorted(set(s_[iv] for s_ in sols))
                 pairs = set((s_[ia], s_[iv]) for s_ in sols)
@@ -217,7 +235,7 @@ def run_case(case, n_draws=3000):
                                   % (n_draws, vname, badv[0], badv[1], n_draws / float(len(fv)), badv[2], sorted(histogram.last[vname].items())))], info
             # variant P': same feasible(a), different companion counts
             stm2 = stmts + [case["variant"]]
-            r2 = flat.enumerate_solutions(types, fields, env0, stm2)
+            r2 = flat.enumerate_solutions(types, rf, env0, stm2)
             comp2 = {}
             for s in r2[1]:
                 comp2[s[ia]] = comp2.get(s[ia], 0) + 1
@@ -254,7 +272,8 @@ def run_case(case, n_draws=3000):
 
 
 def shards(tier):
-    return [{"i": i, "n": 4 if tier == "quick" else 120} for i in range(16)]
+    return [{"i": i, "n": 4 if tier == "quick" else 120} for i in range(16)] + \
+        [{"i": 16 + i, "n": 4 if tier == "quick" else 60, "force": "const_middle"} for i in range(2)]
 
 
 def run_shard(spec, seed, tier, acc):
@@ -278,7 +297,7 @@ def run_shard(spec, seed, tier, acc):
         nord = len([s for s in flat.cls_of(case["prog"])["blocks"][0]["stmts"] if s[0] == "order"])
         acc.label("order directives:%d" % nord)
         return vios
-    hyp.drive(cases(), body, seed, spec["n"], acc, shrink=False)
+    hyp.drive(cases(force=spec.get("force")), body, seed, spec["n"], acc, shrink=False)
 
 
 def replay(case):
